@@ -1,4 +1,5 @@
 import CobraModel.Lemmas.Formulations
+import CobraModel.Lemmas.AuxProb
 /-!
 # C09 — pFBA, linear MOMA and ROOM solve their documented secondary problems
 
@@ -52,5 +53,58 @@ theorem room_linear_rows (v y lb ub ref : Rat) :
 /-! ### non-vacuity -/
 example : sumAbs [3, -2, 0] = 5 := by decide +kernel
 example : subV (posPart [3, -2, 0]) (negPart [3, -2, 0]) = [3, -2, 0] := by decide +kernel
+
+
+/-! ### the whole problems, as cobrapy hands them to the solver
+
+`AuxM.Net.pfba`, `AuxM.Net.moma`, `AuxM.Net.room` (lean/CobraModel/Model/AuxProb.lean) are the complete solver problems after `add_pfba`,
+`add_moma(linear=True)`, `add_room` — every variable, row, bound, coefficient, the objective and the direction; `harness/auxcorr.py`
+compares them entry by entry with the raw GLPK problem at the moment cobrapy asks for a solve.  The theorems are about *any* optimum
+of these problems (GLPK's answer is one, up to its tolerance), for every model, objective, reference and threshold. -/
+open AuxM in
+/-- **pFBA, whole problem**: at any optimum, the net fluxes are at steady state and in bounds, keep the objective at or beyond `t`
+(`t = fraction × optimum`, the bound of the row `fix_objective_as_constraint` adds), their total absolute flux is the smallest among all
+such flux vectors, and the optimal value is that total -/
+theorem pfba_problem_optimum (n : Net) (hp : n.Proper) (name : String) (t : Rat) (x : V → Rat) (h : (n.pfba name t).IsOpt x) :
+    n.Feasible (netOf x) ∧ n.threshold t (netOf x) ∧ (n.pfba name t).value x = n.sumAbs (netOf x) ∧
+    ∀ v, n.Feasible v → n.threshold t v → n.sumAbs (netOf x) ≤ n.sumAbs v := pfba_optimum n hp name t x h
+
+open AuxM in
+/-- … and the problem loses no flux vector: each feasible one that keeps the objective is the projection of a feasible point whose
+objective value is its total absolute flux -/
+theorem pfba_problem_reaches_every_flux_vector (n : Net) (name : String) (t : Rat) (v : Nat → Rat) (hv : n.Feasible v) (ht : n.threshold t v) :
+    (n.pfba name t).Feasible (splitOf v) ∧ netOf (splitOf v) = v ∧ (n.pfba name t).value (splitOf v) = n.sumAbs v :=
+  pfba_complete n name t v hv ht
+
+open AuxM in
+/-- **linear MOMA, whole problem**: at any optimum the net fluxes are feasible for the model handed in (knock-outs are bounds of that model),
+their summed absolute distance to the reference is minimal, and the optimal value is that distance -/
+theorem moma_problem_optimum (n : Net) (hp : n.Proper) (ref : List Rat) (x : V → Rat) (h : (n.moma ref).IsOpt x) :
+    n.Feasible (netOf x) ∧ (n.moma ref).value x = n.dist ref (netOf x) ∧ ∀ v, n.Feasible v → n.dist ref (netOf x) ≤ n.dist ref v :=
+  moma_optimum n hp ref x h
+
+open AuxM in
+/-- **ROOM, whole problem** (binary `y`, finite bounds): at any optimum the net fluxes are feasible, keep the old objective at most its
+value in the reference, leave their tolerance bands `[w − δ|w| − ε, w + δ|w| + ε]` in the smallest possible number of reactions, and the
+optimal value is that number -/
+theorem room_problem_optimum (n : Net) (hp : n.Proper) (hfin : n.Finite) (ref : List Rat) (old tol delta eps : Rat) (x : V → Rat)
+    (h : (n.room ref old tol false delta eps).IsOpt x) :
+    n.Feasible (netOf x) ∧ n.objVal (netOf x) ≤ old ∧
+    (n.room ref old tol false delta eps).value x = n.changed ref tol delta eps (netOf x) ∧
+    ∀ v, n.Feasible v → n.objVal v ≤ old → n.changed ref tol delta eps (netOf x) ≤ n.changed ref tol delta eps v :=
+  room_optimum n hp hfin ref old tol delta eps x h
+
+open AuxM in
+/-- **linear ROOM is the relaxation** of the problem with `delta = epsilon = 0`: same rows and boxes, integrality of `y` dropped -/
+theorem room_linear_problem_is_relaxation (n : Net) (ref : List Rat) (old tol delta eps : Rat) (x : V → Rat) :
+    (n.room ref old tol true delta eps).Feasible x ↔
+      FbaPart n x ∧ x .oldObj ≤ old ∧ x .oldObj = n.objVal (netOf x) ∧ ∀ i ∈ n.idx, RoomRows n ref tol 0 0 x i :=
+  room_linear_is_relaxation n ref old tol delta eps x
+
+/-- non-vacuity: a concrete model and a concrete optimum meet the hypotheses of `pfba_problem_optimum` (total flux 2) -/
+example : AuxM.demoNet.sumAbs (AuxM.netOf (AuxM.splitOf AuxM.demoV)) ≤ AuxM.demoNet.sumAbs AuxM.demoV :=
+  (pfba_problem_optimum AuxM.demoNet AuxM.demoNet_proper _ 1 _ AuxM.demo_pfba_isOpt).2.2.2 AuxM.demoV
+    ((AuxM.demoNet_feasible _).2 (by simp only [AuxM.demoV]; norm_num))
+    (by unfold AuxM.Net.threshold; rw [AuxM.demoNet_objVal]; simp [AuxM.demoV, AuxM.demoNet])
 
 end C09
